@@ -88,6 +88,7 @@ pub fn gen_prog(rng: &mut Rng) -> Vec<u8> {
     p.extend_from_slice(&[0x3e, *rng.pick(&[144u8, 145, 146, 147, 148, 150, 153, 0, 1, 2, 5]), 0xe0, 0x45]);     // LYC
     ie |= *rng.pick(&[0x02u8, 0x02, 0x03, 0x01, 0x00]);
   }
+  if rng.chance(1, 4) { ie |= 0xe0; }                            // the unconnected upper bits of IE are stored, never active
   p.extend_from_slice(&[0x3e, ie, 0xe0, 0xff]);                 // IE
   // something that will wake a HALT within a line or so: the running timer, or a STAT mode-0/mode-2 interrupt
   let waker = (timer && ie & 4 != 0) || (ie & 2 != 0 && stat_en & 0x28 != 0);
@@ -102,7 +103,7 @@ pub fn gen_prog(rng: &mut Rng) -> Vec<u8> {
       3 => { p.extend_from_slice(*rng.pick(&[&[0xc5u8, 0xd1][..], &[0xf5, 0xf1][..], &[0xd5, 0xc5, 0xd1, 0xc1][..]])); }
       4 | 5 => { let n = 1 + rng.below(6); gen_alu(rng, &mut p, n); }
       6 => p.push(*rng.pick(&[0xfbu8, 0xf3, 0xfb])),
-      7 => { p.extend_from_slice(&[0x3e, *rng.pick(&[0x04u8, 0x04, 0x08, 0x10, 0x1c]), 0xe0, 0x0f]); } // request through IF
+      7 => { p.extend_from_slice(&[0x3e, *rng.pick(&[0x04u8, 0x04, 0x08, 0x10, 0x1c, 0xe4, 0xe0, 0xe8]), 0xe0, 0x0f]); } // request through IF (upper bits do not exist)
       8 => { if waker { p.push(0x76); } else { p.push(0x00); } }                                        // HALT (woken by the timer / a STAT mode interrupt)
       9 => { p.extend_from_slice(&[0x3e, *rng.pick(&[0xc0u8, 0xd0, 0xc1]), 0xe0, 0x46, 0x06, 1 + rng.below(60) as u8, 0x05, 0x20, 0xfd]); } // OAM DMA + delay
       10 => {                                                                                           // JP cc over NOPs
@@ -142,10 +143,11 @@ fn run_prog(name: &str, prog: &[u8], init: [u16; 4], steps: usize, w: &mut dyn W
   writeln!(w, "{} prog={} init={},{},{},{} steps={} | t={}", name, hex(prog), init[0], init[1], init[2], init[3], steps, t.join(";")).unwrap();
 }
 
-fn frame_program(n0: usize, n1: usize) -> Vec<u8> {
-  // n0 NOPs ; JP loop ; loop: n1 NOPs ; JP loop
-  let mut prog: Vec<u8> = vec![0x00; n0];
-  let lp = 0xc000 + n0 as u16 + 3;
+fn frame_program(n0: usize, n1: usize, lcd_off: bool) -> Vec<u8> {
+  // [XOR A ; LDH (0x40),A  -- LCDC = 0, display off] n0 NOPs ; JP loop ; loop: n1 NOPs ; JP loop
+  let mut prog: Vec<u8> = if lcd_off { vec![0xaf, 0xe0, 0x40] } else { vec![] };
+  for _ in 0..n0 { prog.push(0x00); }
+  let lp = 0xc000 + prog.len() as u16 + 3;
   prog.extend_from_slice(&[0xc3, (lp & 0xff) as u8, (lp >> 8) as u8]);
   for _ in 0..n1 { prog.push(0x00); }
   prog.extend_from_slice(&[0xc3, (lp & 0xff) as u8, (lp >> 8) as u8]);
@@ -156,7 +158,7 @@ fn frame_program(n0: usize, n1: usize) -> Vec<u8> {
 /// reports on fd 2 after each call: frames completed by the LCD during the call, LY and mode at return
 pub fn frame_child(opts: &Opts) {
   let (n0, n1) = (opts.get_usize("n0", 0), opts.get_usize("n1", 0));
-  let mut core = setup(&frame_program(n0, n1), [0x01b0, 0x0013, 0x00d8, 0x014d]);
+  let mut core = setup(&frame_program(n0, n1, opts.get_usize("off", 0) == 1), [0x01b0, 0x0013, 0x00d8, 0x014d]);
   unsafe { libc::alarm(opts.get_usize("alarm", 8) as u32); }
   let err = std::io::stderr();
   for k in 1..=2 {
@@ -169,10 +171,10 @@ pub fn frame_child(opts: &Opts) {
   }
 }
 
-fn frame_probe(n0: usize, n1: usize, cap: usize, w: &mut dyn Write) {
+fn frame_probe(n0: usize, n1: usize, cap: usize, off: usize, w: &mut dyn Write) {
   let exe = std::env::current_exe().unwrap();
   let out = std::process::Command::new(&exe).arg("c09.framechild").arg("--n0").arg(n0.to_string()).arg("--n1").arg(n1.to_string())
-    .arg("--alarm").arg("8").stdin(std::process::Stdio::null()).stdout(std::process::Stdio::null()).stderr(std::process::Stdio::piped())
+    .arg("--alarm").arg("8").arg("--off").arg(off.to_string()).stdin(std::process::Stdio::null()).stdout(std::process::Stdio::null()).stderr(std::process::Stdio::piped())
     .output().unwrap();
   let so = String::from_utf8_lossy(&out.stderr).to_string();
   let mut r: Vec<(u32, u64, u32, u32)> = vec![(0, 0, 0, 0), (0, 0, 0, 0)];
@@ -183,7 +185,7 @@ fn frame_probe(n0: usize, n1: usize, cap: usize, w: &mut dyn Write) {
       r[if t[0] == "R1" { 0 } else { 1 }] = (1, g(t[1]), g(t[2]) as u32, g(t[3]) as u32);
     }
   }
-  writeln!(w, "c09.frame n0={} n1={} cap={} | e1={} f1={} ly1={} m1={} e2={} f2={} ly2={} m2={} blk={}", n0, n1, cap,
+  writeln!(w, "c09.frame n0={} n1={} cap={} off={} | e1={} f1={} ly1={} m1={} e2={} f2={} ly2={} m2={} blk={}", n0, n1, cap, off,
     r[0].0, r[0].1, r[0].2, r[0].3, r[1].0, r[1].1, r[1].2, r[1].3, 4 * (n1 + 4)).unwrap();
 }
 
@@ -206,7 +208,7 @@ pub fn run(sub: &str, opts: &Opts, w: &mut dyn Write) {
     // re-run exactly the case whose inputs are in that line
     if sub == "frame" {
       let g = |k: &str| field(line, k).parse::<usize>().unwrap_or(0);
-      frame_probe(g("n0"), g("n1"), g("cap"), w);
+      frame_probe(g("n0"), g("n1"), g("cap"), g("off"), w);
     } else {
       let prog = unhex(field(line, "prog"));
       let iv: Vec<u16> = field(line, "init").split(',').map(|x| x.parse::<u16>().unwrap_or(0)).collect();
@@ -228,7 +230,7 @@ pub fn run(sub: &str, opts: &Opts, w: &mut dyn Write) {
       // cap: 40 frames' worth of the longer block, at least 4 frames of 1-cycle steps
       let per = (*n1 + 4).min(*n0 + 4).max(1);
       let cap = if per > 200 { 40 * 17556 / per + 50 } else { 4 * 17556 };
-      frame_probe(*n0, *n1, cap, w);
+      frame_probe(*n0, *n1, cap, i % 3 / 2, w);   // every third probe switches the display off first (LCDC bit 7 clear)
     }
     return;
   }
